@@ -47,7 +47,7 @@ func init() {
 	register(&Prop{
 		ID: "C04", Level: "exploration",
 		Gen: func(seed uint64, tier string, idx int) *Scenario {
-			withSpec := idx%97 == 13 // a few histories with whole-specification validations (0.3 s each)
+			withSpec := idx%41 == 13 // a few histories with whole-specification validations (0.3 s each)
 			if tier == "thorough" {
 				withSpec = idx%23 == 7
 			}
